@@ -238,6 +238,31 @@ func c20Oracle(info *runInfo, res *verifsim.Result) {
 		}
 	}
 
+	// ... and for nothing else: once the last task has returned Serve has no
+	// reason to stay (a task that never became ready must not hold it back)
+	notifyFault := false
+	for _, f := range info.plan.Faults {
+		if f.Seam == "notify" || f.Seam == "log" {
+			notifyFault = true
+		}
+	}
+	if !notifyFault {
+		var last *verifsim.Event
+		for _, s := range names {
+			if t := tasks[s]; t.exit != nil && (last == nil || t.exit.Seq > last.Seq) {
+				last = t.exit
+			}
+		}
+		// (the signal watcher is a task of its own: it returns on the signal or
+		// when a failing task cancels everybody)
+		if sigEv != nil && (last == nil || sigEv.Seq > last.Seq) {
+			last = sigEv
+		}
+		if last != nil && last.Seq < serveExit.Seq && serveExit.T > last.T && (sigEv != nil || firstFail != nil) {
+			res.Violate("C20.waitall", "late", "every task had returned by %s but Serve only returned at %s", ms(last.T), ms(serveExit.T))
+		}
+	}
+
 	// cancelall: once the first task failed, every scripted task still running sees its context cancelled at once
 	if firstFail != nil && !signalFirst {
 		for _, s := range names {
